@@ -30,7 +30,7 @@ structure BalT (i : Nat) (top : Str) (rest : List (Nat × Str)) (σ σ' : St) : 
 theorem Bal.refl {i top rest σ} (h : σ.bufs = (i, top) :: rest) (ok : StOK σ) : Bal i top rest σ σ :=
   ⟨⟨[], by simp [h]⟩, rfl, rfl, .inl rfl, ok⟩
 
-theorem Bal.trans {i top rest σ σ1 σ2 w} (h1 : Bal i top rest σ σ1) (hw : σ1.bufs = (i, top ++ w) :: rest)
+theorem Bal.trans {i top rest σ σ1 σ2 w} (h1 : Bal i top rest σ σ1) (_hw : σ1.bufs = (i, top ++ w) :: rest)
     (h2 : Bal i (top ++ w) rest σ1 σ2) : Bal i top rest σ σ2 := by
   obtain ⟨w2, hw2⟩ := h2.bufs
   refine ⟨⟨w ++ w2, by simp [hw2]⟩, h2.frames.trans h1.frames, h2.loops.trans h1.loops, ?_, h2.ok⟩
@@ -404,7 +404,7 @@ theorem invoke_good (n : Nat) (ih : ∀ m, m < n + 1 → All c m) : InvokeGood c
 theorem bumpTop_tail (ls : List LoopCtx) : (bumpTop ls).tail = ls.tail := by cases ls <;> rfl
 theorem bumpTop_nil (ls : List LoopCtx) : bumpTop ls = [] ↔ ls = [] := by cases ls <;> simp [bumpTop]
 
-theorem BalT.trans {i top rest σ σ1 σ2 w} (h1 : BalT i top rest σ σ1) (hw : σ1.bufs = (i, top ++ w) :: rest)
+theorem BalT.trans {i top rest σ σ1 σ2 w} (h1 : BalT i top rest σ σ1) (_hw : σ1.bufs = (i, top ++ w) :: rest)
     (h2 : BalT i (top ++ w) rest σ1 σ2) : BalT i top rest σ σ2 := by
   obtain ⟨w2, hw2⟩ := h2.bufs
   refine ⟨⟨w ++ w2, by simp [hw2]⟩, h2.frames.trans h1.frames, ⟨h2.loops.1.trans h1.loops.1, h2.loops.2.trans h1.loops.2⟩,
